@@ -519,6 +519,10 @@ class SymExec:
                                             callee_name(strip_casts(a_['r'])) == 'sprintf' and strip_casts(a_['r'])['args'] and
                                             strip_casts(strip_casts(a_['r'])['args'][0]).get('d') == a0_['d'] for a_ in reaching):
                             nul = True
+                # an entry of a constant table of {text, length} records, copied with length + 1 bytes: the terminator comes along
+                # if every entry of the tables the pointer can stand in has length == strlen(text)
+                if not nul and self._table_entry_with_terminator(strip_casts(args[1]), n):
+                    nul = True
                 # source and length both handed in by the caller: whether the last byte copied is the terminator is the
                 # callers' business (checked at every call site by out23)
                 pidx = {p['d']: i for i, p in enumerate(self.fn.params)}
@@ -540,6 +544,69 @@ class SymExec:
             p = self.ptr_pos(args[0], st)
             if p is not None:
                 raise AnalysisBroken('OUT2: %s: sprintf into the output outside the escaping loop' % self.fn.where(c))
+
+    def _table_entry_with_terminator(self, src, n):
+        if src.get('k') != 'mem' or n.c != 1 or len(n.t) != 1 or list(n.t.values()) != [1]:
+            return False
+        base = strip_casts(src['b'])
+        term = next(iter(n.t))
+        u = self.u
+        if base.get('k') != 'ref' or base.get('dk') != 'local':
+            return False
+        rec = None
+        for r in u.records.values():
+            names = [f['n'] for f in r['fields']]
+            if src['f'] in names and any(term == '%s%s%s' % (expr_str(base), '->' if src.get('arrow') else '.', f_) for f_ in names):
+                rec = r
+                flen = [f_ for f_ in names if term == '%s%s%s' % (expr_str(base), '->' if src.get('arrow') else '.', f_)][0]
+                break
+        if rec is None:
+            return False
+        names = [f['n'] for f in rec['fields']]
+        it, il = names.index(src['f']), names.index(flen)
+        # where the pointer can stand: only in constant tables of the unit
+        defs = [d_['init'] for d_ in self.fn.locals() if d_['d'] == base['d'] and 'init' in d_ and not is_null_const(d_['init'])]
+        defs += [a_['r'] for a_ in self.fn.nodes() if a_.get('k') == 'bin' and a_.get('op') in ASSIGN_OPS and
+                 strip_casts(a_['l']).get('k') == 'ref' and strip_casts(a_['l']).get('d') == base['d'] and not is_null_const(a_['r'])]
+        tables = set()
+        for d_ in defs:
+            x = strip_casts(d_)
+            if not (x.get('k') == 'un' and x['op'] == '&'):
+                return False
+            x = strip_casts(x['e'])
+            while x.get('k') == 'idx':
+                x = strip_casts(x['b'])
+            if not (x.get('k') == 'ref' and x.get('dk') == 'global'):
+                return False
+            tables.add(x['n'])
+        if not tables:
+            return False
+
+        def entries(init):
+            if init.get('k') != 'initlist':
+                return
+            inits = init.get('inits', [])
+            if len(inits) == len(names) and strip_casts(inits[it]).get('k') == 'str':
+                yield inits
+                return
+            for sub in inits:
+                for e_ in entries(sub):
+                    yield e_
+        for g in u.globals:
+            if g['n'] not in tables:
+                continue
+            if not g.get('const') or 'init' not in g:
+                return False
+            got = list(entries(g['init']))
+            if not got:
+                return False
+            for e_ in got:
+                text = bytes(strip_casts(e_[it])['bytes'])
+                if const_val(e_[il]) != len(text) or 0 in text:
+                    self.ob('OUT3', e_[il], 'a table entry records the length of its text', False,
+                            'entry "%s" of %s records %s' % (text.decode('latin1'), g['n'], const_val(e_[il])), 'table:%s' % g['n'])
+                    return False
+        return True
 
     # ---- loops ------------------------------------------------------------------------------------------------------------
     def loop_summary(self, head, st):
